@@ -10,7 +10,6 @@
 package main
 
 import (
-	"time"
 	"crypto/sha256"
 	"encoding/json"
 	"fmt"
@@ -22,6 +21,7 @@ import (
 	"sort"
 	"strconv"
 	"strings"
+	"time"
 
 	"github.com/benoitkugler/gomacro/generator"
 	"github.com/benoitkugler/gomacro/verifsim"
@@ -90,34 +90,42 @@ func main() {
 		if len(args) == 0 {
 			return nil, &exec.Error{Name: name, Err: exec.ErrNotFound}
 		}
-		last := args[len(args)-1]
-		isRun := false
-		switch name {
-		case "goimports":
-			isRun = len(args) == 2 && args[0] == "-w"
-		case "dart":
-			isRun = len(args) == 2 && args[0] == "format" && last != "--help"
-		case "npx":
-			isRun = len(args) == 3 && args[1] == "--write"
-		case "pg_format":
-			isRun = len(args) == 2 && args[0] == "-i"
+		// a command naming an existing file is a formatter run on that file,
+		// whatever its other arguments; anything else is a probe
+		last, isRun := "", false
+		for _, a := range args {
+			if st, err := os.Stat(a); err == nil && st.Mode().IsRegular() {
+				last, isRun = a, true
+			}
+		}
+		switch filepath.Base(name) {
+		case "goimports", "dart", "npx", "prettier", "pg_format":
+		default:
+			isRun = false
 		}
 		if isRun {
 			f, err := os.OpenFile(last, os.O_APPEND|os.O_WRONLY, 0)
 			if err != nil {
 				return nil, err
 			}
-			fmt.Fprintf(f, "\n// formatted by %s\n", name)
+			fmt.Fprintf(f, "\n// formatted by %s\n", filepath.Base(name))
 			f.Close()
 		}
 		return nil, nil
+	}
+	verifsim.LookPathHook = func(file string) (string, error) {
+		switch filepath.Base(file) {
+		case "goimports", "dart", "npx", "prettier", "pg_format", "which":
+			return "/usr/bin/" + filepath.Base(file), nil
+		}
+		return "", &exec.Error{Name: file, Err: exec.ErrNotFound}
 	}
 	// commands take simulated time: per schedule each tool is instantaneous or
 	// slow (3 s per command, cold start) - a tool that answers late is installed
 	// all the same, the outputs must not depend on how long it took
 	slowMask := uint64(0)
 	verifsim.ExecDurationHook = func(name string, args []string) time.Duration {
-		bit := map[string]uint{"which": 0, "goimports": 0, "dart": 1, "npx": 2, "pg_format": 3}[name]
+		bit := map[string]uint{"which": 0, "goimports": 0, "dart": 1, "npx": 2, "pg_format": 3}[filepath.Base(name)]
 		if slowMask&(1<<bit) != 0 {
 			return 3 * time.Second
 		}
